@@ -264,6 +264,9 @@ def snapshot(core, asms):
         'd_gap': float(core.d_gap), 'oftf': float(core.duct_oftf),
         'pitch': float(core.asm_pitch),
         'ids': [int(a.id) for a in asms],
+        'model': core.model,
+        'conv_const': (np.array(core._conv_util['const'])
+                       if hasattr(core, '_conv_util') else None),
         'asm_mesh': [(bool(a.has_rodded),
                       int(a.rodded.n_ring) if a.has_rodded else 0,
                       float(a.rodded.pin_pitch) if a.has_rodded else 0.0)
@@ -491,6 +494,26 @@ def contracts(res, S, M, key, gap_flow_expected):
             res.close('shared_cell_seen_identically', ws[0] - ws[1], side,
                       TOL, 'shared edge cell has different widths from its '
                       'two assemblies', dict(key, mech='edge_width'))
+
+    # coupling constants of the gap energy equation: for every cell and every
+    # assembly it touches (in assembly order), the contact length of the cell
+    # on THAT assembly's side (a corner cell between unlike meshes has a
+    # different one towards each of them)
+    if S.get('conv_const') is not None:
+        fac = 2.0 / S['d_gap'] if S.get('model') == 'no_flow' else 1.0
+        worst, wit = 0.0, None
+        for idx in range(1, n_sc + 1):
+            own = sorted(occ[idx])
+            for i, a in enumerate(own):
+                want = float(S['asm_wp'][a][rows[a].index(idx)]) * fac
+                got = float(S['conv_const'][idx - 1, i])
+                dd = abs(got - want) / max(abs(want), 1e-300)
+                if dd > worst:
+                    worst, wit = dd, (idx, a, got, want)
+        res.close('coupling_constant_is_own_contact_length', worst, 1.0, 1e-11,
+                  'duct-gap coupling constant of a cell towards one of its '
+                  'assemblies is not that assembly\'s contact length: %r'
+                  % (wit,), dict(key, mech='conv_const'))
 
     # ---- M7 areas ------------------------------------------------------------
     d = M.d
